@@ -505,6 +505,15 @@ class EndpointResponseHandlerGenerator:
             writer.write_line("case _:  # Default response")
             writer.indent()
             if default_response.content and strategy.return_type != "None":
+                # A 'default' response with content is only a success body for 2xx statuses; with a transport
+                # that hands non-2xx responses back, every other status must still raise
+                context.add_import(f"{context.core_package_name}.exceptions", "HTTPError")
+                writer.write_line("if not 200 <= response.status_code < 300:")
+                writer.indent()
+                writer.write_line(
+                    'raise HTTPError(response=response, message="Default error", status_code=response.status_code)'
+                )
+                writer.dedent()
                 self._write_strategy_based_return(writer, strategy, context)
             else:
                 context.add_import(f"{context.core_package_name}.exceptions", "HTTPError")
